@@ -12,7 +12,8 @@ import random
 
 from vf.core import hostile_history
 from vf.gen import instances, render
-from vf.oracles import modelwalk, ref_decl
+from vf.monitors import online
+from vf.oracles import modelwalk, ref_decl, spec
 from vf.oracles import ref_types as R
 
 PROP = "C03"
@@ -201,6 +202,22 @@ class Lex:
         raise TypeError(t)
 
 
+def spec_desc(lex, cls, attr, live):
+    """The element's type as the frozen specification table gives it (tokens, limits, scale) - the text and the expected value
+    are drawn from THAT, so a model whose declaration drifted from the specification disagrees with the document.  Children the
+    table does not know (added later) fall back to the live declaration and are counted."""
+    from ofxtools import Types as T
+
+    g = spec.gold(cls.__name__, attr)
+    if g is None:
+        lex.ctx.count("leaves_typed_by_live_declaration_only")
+        return live
+    lex.ctx.count("leaves_typed_by_spec_table")
+    if isinstance(live, T.ListElement):
+        return T.ListElement(g)
+    return g
+
+
 def document(lex, inst):
     """Walk a generated instance: -> (reference tree for rendering, expected snapshot)."""
     from ofxtools.models.base import Aggregate
@@ -218,7 +235,7 @@ def document(lex, inst):
             node, snap = document(lex, m)
             member_nodes.append((type(m).__name__.lower(), node, snap))
         else:
-            text, exp = lex.leaf(cls, listelem_attr, d[listelem_attr])
+            text, exp = lex.leaf(cls, listelem_attr, spec_desc(lex, cls, listelem_attr, d[listelem_attr]))
             member_nodes.append((listelem_attr, (ref_decl.tag_of(cls, listelem_attr), text), exp))
     for k, t in d.items():
         kind = ref_decl.kind_of(t)
@@ -241,7 +258,7 @@ def document(lex, inst):
             kids.append(node)
             items.append((k, snap))
         else:
-            text, exp = lex.leaf(cls, k, t)
+            text, exp = lex.leaf(cls, k, spec_desc(lex, cls, k, t))
             kids.append((ref_decl.tag_of(cls, k), text))
             items.append((k, exp))
     # expected member order = order within runs, runs in declared order (generator keeps members in run order)
@@ -280,6 +297,7 @@ def one_document(ctx, lex, name, cls, seedstr):
 
     rng = random.Random(seedstr)
     lex.rng = rng
+    ctx.current_case = {"cls": name, "seedstr": seedstr}
     try:
         inst = instances.build(cls, rng, "random", opts=instances.Opts(stratum="plain", maxdepth=6))
     except Exception:
@@ -335,6 +353,11 @@ def run_shard(ctx):
         return
     classes = list(ref_decl.all_classes().items())
     lex = Lex(ctx, ctx.rng)
+    online.set_ctx(ctx)
+    online.install_init_monitor()
+    if ctx.shard == 0:
+        for d in spec.differences()[:200]:
+            ctx.add("declarations_differing_from_spec_table", str(d)[:200])
     per = 5 if ctx.tier == "quick" else 500
     for ci, (name, cls) in enumerate(classes):
         if ci % ctx.nshards != ctx.shard:
@@ -351,9 +374,13 @@ def run_shard(ctx):
             data = one_document(ctx, lex, name, cls, f"C03/{ctx.seed}/{name}/{p}")
             if data and p == 1 and ci % 50 == 0:
                 ctx.sample({"cls": name, "document_tail": data.decode("utf_8")[-400:]})
+    online.flush(ctx)
 
 
 def replay(ctx, case):
     R.selftest()
     classes = ref_decl.all_classes()
+    online.set_ctx(ctx)
+    online.install_init_monitor()
     one_document(ctx, Lex(ctx, ctx.rng), case["cls"], classes[case["cls"]], case["seedstr"])
+    online.flush(ctx)
